@@ -65,14 +65,28 @@ struct Causes {
 /// On the multi-threaded executor: was the reported `NoRecipient { model }` raised by a model that
 /// was talking to a model whose task had just died (known race F9: the secondary `SendError`
 /// is registered before the primary failure)?
-fn is_secondary(case: &Case, h: &Hist, c: &CmdRec, k: &Causes, res: &Res) -> bool {
-    let Res::NoRecipient(Some(m)) = res else { return false };
+fn is_secondary(case: &Case, h: &Hist, c: &CmdRec, k: &Causes, res: &Res, ag: &Agenda) -> bool {
+    let Res::NoRecipient(m) = res else { return false };
     if case.cfg.threads <= 1 {
         return false;
     }
     let lo = c.begin;
     let hi = c.end.unwrap_or(u64::MAX);
     let extra = flow::dynamic_connections(h);
+    // `None`: a task of the scheduler / driver (an event or query source) was talking to the victim.
+    if m.is_none() {
+        let by_action = ag.actions.iter().any(|a| {
+            a.accepted && a.via_action && {
+                let r = &h.scheds[a.req];
+                action_source(h, r).and_then(|src| case.sources.get(src)).map(|spec| spec.edges.iter().any(|e| matches!(e.target, Target::Node(t) if k.victims.contains(&t)) && e.accepts(r.salt))).unwrap_or(false)
+            }
+        });
+        let by_send = h.sends.iter().any(|s| {
+            s.port >= 3000 && s.begin >= lo && s.begin <= hi && expected_deliveries(case, s.actor, s.port, s.salt, &[]).iter().any(|d| matches!(d.target, Target::Node(t) if k.victims.contains(&t)))
+        });
+        return by_action || by_send;
+    }
+    let m = m.as_ref().unwrap();
     h.sends.iter().any(|s| {
         let Actor::Node(x) = s.actor else { return false };
         if case.fq_name(x as usize) != *m || s.begin < lo || s.begin > hi || s.port >= 2000 {
@@ -187,7 +201,7 @@ pub fn classification(case: &Case, h: &Hist, ag: &Agenda) -> Vec<Violation> {
                 // Distinguishing key: on the multi-threaded executor, a `NoRecipient` naming a
                 // model that was talking to the panicking model (its mailbox / reply channel is
                 // closed by the panic) is the known race F9; anything else is keyed by class.
-                let key = if is_secondary(case, h, c, &k, res) { "secondary_send_error_wins_race_mt".to_string() } else { res.class().to_string() };
+                let key = if is_secondary(case, h, c, &k, res, ag) { "secondary_send_error_wins_race_mt".to_string() } else { res.class().to_string() };
                 v.push(Violation::keyed("c11_panic_misreported", key, format!("{} although model `{}` panicked with payload `{}` during the call (panics: {:?})", what, model, payload, k.panics)));
             }
         } else if !k.dead_senders.is_empty() {
@@ -196,7 +210,7 @@ pub fn classification(case: &Case, h: &Hist, ag: &Agenda) -> Vec<Violation> {
                 _ => false,
             };
             if !ok {
-                let key = if is_secondary(case, h, c, &k, res) { "secondary_send_error_wins_race_mt".to_string() } else { res.class().to_string() };
+                let key = if is_secondary(case, h, c, &k, res, ag) { "secondary_send_error_wins_race_mt".to_string() } else { res.class().to_string() };
                 v.push(Violation::keyed("c11_no_recipient_misreported", key, format!("{} although a message was sent to a dropped mailbox by {:?} during the call", what, k.dead_senders)));
             }
         } else if k.timeout {
